@@ -36,3 +36,18 @@ func (c *PointerCodec) Write(w *WriteBuf, p unsafe.Pointer) {
 	}
 	c.Codec.Write(w, pp)
 }
+
+// collectionPointerCodec is the PointerCodec used for *[]T and *map[string]T.
+// Their schema is a plain array or map with no nullable union around it, so a
+// nil pointer has to be written as the empty collection.
+type collectionPointerCodec struct {
+	PointerCodec
+}
+
+func (c *collectionPointerCodec) Write(w *WriteBuf, p unsafe.Pointer) {
+	if *(*unsafe.Pointer)(p) == nil {
+		w.Varint(0)
+		return
+	}
+	c.PointerCodec.Write(w, p)
+}
